@@ -8,6 +8,7 @@ import XpmVerif.Generated.SchedFlags
                    | ["spawn",ident,code]      -- a launch by somebody else (another scheduler): process without pid file
                    | ["quiesce", allow]        -- run a fixed policy until nothing is enabled; processes listed in
                                                   `allow` (or all if allow = null) may leave the body
+                   | ["untilEnter", j] | ["procsOnly"] | ["procRun", p]   -- canonical schedules for the real runs
     One observation per line. -/
 open Lean XpmVerif XpmVerif.J XpmVerif.Sched XpmVerif.Restart
 
@@ -105,6 +106,25 @@ def quiesce (fl : Flags) (allow : Option (List Nat)) : Nat → W → W
         | some p => quiesce fl allow fuel (w.apply fl (.proc p true))
         | none => w
 
+/-- scheduler policy only, until job `j` is inside `aio_start` holding its job lock (the point where `aio_run` runs) -/
+def untilEnter (fl : Flags) (j : Nat) : Nat → W → W
+  | 0, w => w
+  | fuel + 1, w =>
+    let jb := w.a.s.jobs j
+    if jb.pc == .lockEnter && (w.a.d.dir jb.ident).lock == .sched then w
+    else if !w.a.s.ready.isEmpty then untilEnter fl j fuel (w.apply fl (.sched .step))
+    else match enabledThread w with
+      | some k => untilEnter fl j fuel (w.apply fl (.sched (.deliver k)))
+      | none => w
+
+/-- job processes only (no scheduler event): every process runs to its end -/
+def procsOnly (fl : Flags) : Nat → W → W
+  | 0, w => w
+  | fuel + 1, w =>
+    match movableProc w none with
+    | some p => procsOnly fl fuel (w.apply fl (.proc p true))
+    | none => w
+
 def stepJ (d : DS') (j : Json) : DS' × Json :=
   match strF j "op" with
   | "init" =>
@@ -123,6 +143,11 @@ def stepJ (d : DS') (j : Json) : DS' × Json :=
       | "crash" => d.w.apply Gen.schedFlags .crash
       | "crashAfterSpawn" => d.w.apply Gen.schedFlags (.crashAfterSpawn (nat (e.getD 1 Json.null)))
       | "spawn" => { d.w with a := { d.w.a with d := d.w.a.d.spawn (nat (e.getD 1 Json.null)) (nat (e.getD 2 Json.null)) } }
+      | "untilEnter" => untilEnter Gen.schedFlags (nat (e.getD 1 Json.null)) 5000 d.w
+      | "procsOnly" => procsOnly Gen.schedFlags 5000 d.w
+      | "procRun" =>
+        let p := nat (e.getD 1 Json.null)
+        ((d.w.apply Gen.schedFlags (.proc p true)).apply Gen.schedFlags (.proc p true)).apply Gen.schedFlags (.proc p true)
       | "quiesce" =>
         let al := e.getD 1 Json.null
         quiesce Gen.schedFlags (if isNull al then none else some ((arr al).map nat)) 5000 d.w
